@@ -99,6 +99,48 @@ def ret_fields(db, fn, depth=3):
     return out
 
 
+REORDER_OR_DROP = {
+    "rev", "partition", "partition_in_place", "sort", "sort_by", "sort_by_key", "sort_unstable", "sort_unstable_by", "sort_unstable_by_key",
+    "sorted", "sorted_by", "sorted_by_key", "sorted_unstable", "reverse", "rotate_left", "rotate_right", "swap", "swap_remove", "unzip",
+    "skip", "take", "skip_while", "take_while", "step_by", "filter", "filter_map", "dedup", "dedup_by", "dedup_by_key", "unique", "unique_by",
+    "max", "min", "max_by", "min_by", "max_by_key", "min_by_key", "last", "nth", "find", "group_by", "chunk_by", "interleave", "merge", "kmerge",
+    "retain", "truncate", "drain", "split_off", "pop", "remove", "shift_remove", "into_group_map",
+}
+
+
+def pipeline_violations(db, fn, depth=2):
+    """calls that can reorder or drop elements anywhere between a `self` store and what a listing
+    function appends / returns (the expression trees of every extend/push argument and of the return value);
+    local listing helpers called on self are followed"""
+    from qv.engine import fn_expr_local, expr_calls
+
+    bad = []
+    exprs = []
+    for bb, t, c in fn.calls():
+        p = callee_path(c) or ""
+        name = (c or {}).get("name")
+        if (c and c.get("trait") == "std::iter::Extend" and name == "extend") or p.endswith("Vec::<T, A>::push") or p.endswith("Vec::<T, A>::append"):
+            if len(t["args"]) > 1:
+                exprs.append(fn_expr_operand(fn, t["args"][1]))
+    exprs.append(fn_expr_local(fn, 0))
+    seen = set()
+    for e in exprs:
+        for call in expr_calls(e):
+            nm = call[1].rsplit("::", 1)[-1]
+            if nm in REORDER_OR_DROP and self_fields(call):
+                k = (call[1], call[3])
+                if k not in seen:
+                    seen.add(k)
+                    bad.append((call[1], fn.blocks[call[3]]["t"]["sp"], self_fields(call)))
+            if depth > 0 and call[2]:
+                a0 = call[2][0]
+                hs = db.by_path.get(call[1], [])
+                if len(hs) == 1 and self_fields(a0) and hs[0].dp != fn.dp:
+                    for b in pipeline_violations(db, hs[0], depth - 1):
+                        bad.append(b)
+    return bad
+
+
 def fields_read(db, fn):
     """self fields read anywhere in fn (place projections on param 1), incl. its closures"""
     names = set()
@@ -215,6 +257,7 @@ def run(ctx):
         "R1 (K4) to_instructions / into_instructions: same stores appended in the same order",
         "R2 (K3) stores mutated by add_instruction == stores listed == stores counted by len",
         "R3 (K2) add_instruction variant -> store routing agrees with what each listing section re-creates",
+        "R4 (K10) between a store and the listing output only order-preserving, loss-free adaptors are applied",
     ]
     to_i = require_fn(db, res, PROGRAM + "::to_instructions")
     into_i = require_fn(db, res, PROGRAM + "::into_instructions")
@@ -236,9 +279,10 @@ def run(ctx):
         sg = [x[0] for x in sections(g)]
         owner = f.path.rsplit("::", 1)[0]
         key = "K4|section-order|" + owner
-        if not sf and not sg:
-            # no vector building: compare the set of fields read
-            rf, rg = ret_fields(db, f), ret_fields(db, g)
+        if not sf or not sg:
+            # (one side) builds no vector incrementally: compare the ordered fields feeding the result
+            rf = [x[0] for x in sf if len(x) == 1] if sf else ret_fields(db, f)
+            rg = [x[0] for x in sg if len(x) == 1] if sg else ret_fields(db, g)
             ok = rf == rg and len(rf) > 0
             res.site(key, True, {"type": owner, "to_instructions": rf, "into_instructions": rg, "verdict": "ok" if ok else "VIOLATION"})
             if not ok:
@@ -257,6 +301,18 @@ def run(ctx):
         for s_ in sf + sg:
             if len(s_) != 1:
                 res.find(key + "|ambiguous", f.loc(), "a listing section does not read exactly one store: %s" % (s_,))
+
+    # R4: order-preserving, loss-free pipelines
+    npipe = 0
+    for f, g in pairs:
+        for h in (f, g):
+            npipe += 1
+            for (callee, sp, flds) in pipeline_violations(db, h):
+                key = "K10|pipeline|%s|%s" % (h.path, callee.rsplit("::", 1)[-1])
+                res.site(key, True)
+                res.find(key, h.loc(sp), "%s passes store `%s` through `%s`, which can reorder or drop elements: the listing no longer follows definition order / loses definitions" % (h.path, ".".join(flds), callee), "definitions of that kind are listed in a different order by the two listings (or not at all)")
+            res.site("K10|pipeline|%s" % h.path, True, {"fn": h.path, "verdict": "order-preserving adaptors only"})
+    res.count("listing_functions_pipeline_checked", npipe, floor=6)
 
     # R2
     mut = set(fields_mutated(db, add_i)) - CACHE_FIELDS
